@@ -47,7 +47,14 @@ def expected_groups(tree, out):
         if el.text is not None:
             f = value_fields(el.text)
             if f and kids:
-                return None          # children are inserted at the first field: value is split
+                # html formatter: the children are written in place of the FIRST field of the text (documented for
+                # snippets such as cc:ie); the fields after it belong to the same value (relative numbering kept)
+                # and, like every value, must not share numbers with the tabstops of the children
+                if expected_groups(kids, out) is None:
+                    return None
+                if len(f) > 1:
+                    out.append(f[1:])
+                continue
             if f:
                 out.append(f)
         elif not kids and not el.self_close:
@@ -158,12 +165,17 @@ def impl_style_events(abbr, cfg):
     uc.setdefault('options', {})
     uc['options']['output.field'] = field
     uc['options']['output.text'] = text
-    from common import time_limit, Hang
+    from common import Hang
+    from markup_util import _limited_call, CALL_LIMIT_S
+
+    def call():
+        del events[:]
+        return expand(abbr, copy.deepcopy(uc))
     try:
-        with time_limit(10):
-            return ('ok', expand(abbr, uc), events)
+        # wall-clock limit; when it fires on a loaded machine the call is repeated once under a CPU-time limit
+        return ('ok', _limited_call(call), events)
     except Hang:
-        return ('hang', 10)
+        return ('hang', CALL_LIMIT_S)
     except Exception as e:  # noqa
         return classify_exc(e)
 
@@ -172,7 +184,8 @@ def impl_events_rewriting(abbr, cfg):
     """Callbacks that do NOT return what they are given: fields become editor tabstops
     `${index:placeholder}`, text is HTML-escaped.  The recorded string is the returned one."""
     from emmet import expand
-    from common import time_limit, Hang
+    from common import Hang
+    from markup_util import _limited_call, CALL_LIMIT_S
     uc = copy.deepcopy(cfg)
     events = []
 
@@ -189,11 +202,13 @@ def impl_events_rewriting(abbr, cfg):
     uc['options'] = dict(uc['options'])
     uc['options']['output.field'] = field
     uc['options']['output.text'] = text
+    def call():
+        del events[:]
+        return expand(abbr, copy.deepcopy(uc))
     try:
-        with time_limit(10):
-            return ('ok', expand(abbr, uc), events)
+        return ('ok', _limited_call(call), events)
     except Hang:
-        return ('hang', 10)
+        return ('hang', CALL_LIMIT_S)
     except Exception as e:  # noqa
         return classify_exc(e)
 
@@ -279,7 +294,165 @@ def indent_text_cases(rng, n):
         cfg = fu.rand_base(rng, fu.INDENT_SYNTAXES)
         cfg = fu.with_options(cfg, {'output.newline': rng.choice(NEWLINES), 'output.indent': rng.choice(['\t', '  ', '']),
                                     'output.baseIndent': rng.choice(['', '', ' ', '\t\t'])})
-        out.append((abbr, cfg, {'explicit': True, 'groups': groups}))
+        out.append((abbr, cfg, {'explicit': True, 'groups': groups, 'distinct': True}))
+    return out
+
+
+# ---------------------------------------------------------------- values with several fields x children with several tabstops
+# A text value that has child elements: text-only nodes `{...}>kids` (what conditional-comment style snippets are made of)
+# and elements with text `p{...}>kids`, the text holding 0..4 explicit fields with pairwise different indices anywhere in
+# it, the children a `+` sequence producing 0..many tabstops of their own (empty leaves, empty / explicit-field attribute
+# values, texts with fields, self-closed leaves, groups, repeats, nested values of the same kind), the whole thing below a
+# parent, between siblings and repeated.  Expected group structure is built alongside from what the property says:
+#   html family   - the children stand in place of the FIRST field of the text (documented behaviour of the html
+#                   formatter: "output children as a content of first field"); the remaining fields of the value keep their
+#                   relative numbering and do not share numbers with any tabstop of the children or of earlier values;
+#   pug/haml/slim - the value is written whole before the children.
+SPLIT_VALUES_ON = True
+SPLIT_NAMES = ['div', 'p', 'span', 'section', 'em', 'b', 'q', 'u', 'custom', 'main', 'nav', 'x-y']
+SPLIT_LITERALS = ['', '', 'x', 'a ', ' b ', ' - ', 'w\n', '\n  t', 'one two', '<!-- ', ' -->', '\r\nz']
+SPLIT_PLACEHOLDERS = ['', '', '', 'ph', 'note', 'two\nl']
+
+
+def split_text(rng, nfields):
+    idx = rng.sample(range(0, 7), nfields)
+    parts = [rng.choice(SPLIT_LITERALS)]
+    for i in idx:
+        ph = rng.choice(SPLIT_PLACEHOLDERS)
+        parts.append('${%d:%s}' % (i, ph) if ph else '${%d}' % i)
+        parts.append(rng.choice(SPLIT_LITERALS))
+    t = ''.join(parts)
+    return (t or 'x'), idx
+
+
+def split_node(rng, depth, html, force_kids=False):
+    """(abbreviation, groups, has_child_operator) of one value-with-children node."""
+    kind = rng.choice(['text', 'text', 'el', 'el', 'elattr'])
+    text, fields = split_text(rng, rng.choice([0, 1, 2, 2, 2, 3, 3, 4]))
+    groups = []
+    head = ''
+    if kind != 'text':
+        head = rng.choice(SPLIT_NAMES)
+    if kind == 'elattr':
+        a, ag = rng.choice([('[title]', [[0]]), ('[data-f=${3}${1:v}]', [[3, 1]]), ('[title="" data-v=v]', [[0]]),
+                            ('[data-v="v"]', [])])
+        head += a
+        groups += ag
+    rep = rng.choice([2, 3]) if head and rng.random() < 0.12 else None
+    has_kids = force_kids or rng.random() < 0.85
+    kids, kg = split_kids(rng, depth + 1, html) if has_kids else ('', [])
+    if html and has_kids and fields:
+        groups += kg
+        if len(fields) > 1:
+            groups.append(fields[1:])
+    else:
+        if fields:
+            groups.append(fields)
+        groups += kg
+    abbr = '%s{%s}' % (head, text)
+    if rep:
+        abbr += '*%d' % rep
+        groups = groups * rep
+    if has_kids:
+        abbr += '>' + kids
+    return abbr, groups, has_kids
+
+
+def split_unit(rng, depth, html):
+    """(abbreviation, groups, has_child_operator) of one unit of a `+` sequence."""
+    r = rng.random()
+    name = rng.choice(SPLIT_NAMES)
+    if r < 0.30:
+        n = rng.choice([None, None, 2, 3])
+        return (name + ('*%d' % n if n else ''), [[0]] * (n or 1), False)
+    if r < 0.42:
+        a, ag = rng.choice([('[href title]', [[0], [0]]), ('[title=""]', [[0]]), ("[alt='' data-v=v]", [[0]])])
+        return (name + a, ag + [[0]], False)
+    if r < 0.50:
+        return (name + '[data-f=u${2:w}${1}]', [[2, 1], [0]], False)
+    if r < 0.58:
+        return (name + '{t}', [], False)
+    if r < 0.66:
+        t, f = split_text(rng, rng.choice([1, 2, 3]))
+        return ('%s{%s}' % (name, t), [f], False)
+    if r < 0.72:
+        return (name + '/', [], False)
+    if r < 0.84 and depth < 3:
+        inner, ig = split_kids(rng, depth + 1, html)
+        n = rng.choice([None, None, 2])
+        return ('(%s)%s' % (inner, '*%d' % n if n else ''), ig * (n or 1), False)
+    if r < 0.92 and depth < 3:
+        inner, ig = split_kids(rng, depth + 1, html)
+        return ('%s>%s' % (name, inner), ig, True)
+    if depth < 3:
+        return split_node(rng, depth, html)
+    return (name, [[0]], False)
+
+
+def split_kids(rng, depth, html):
+    """(abbreviation, groups) of a `+` sequence of 1..4 units; a unit that uses `>` and is not the last is grouped."""
+    units = [split_unit(rng, depth, html) for _ in range(rng.choice([1, 2, 2, 3, 3, 4]))]
+    parts = []
+    groups = []
+    for k, (a, gr, nests) in enumerate(units):
+        parts.append('(%s)' % a if nests and k < len(units) - 1 else a)
+        groups += gr
+    return '+'.join(parts), groups
+
+
+def split_value_cases(rng, n):
+    out = []
+    for _ in range(n):
+        html = rng.random() < 0.75
+        node, groups, nests = split_node(rng, 0, html, force_kids=rng.random() < 0.9)
+        r = rng.random()
+        if r < 0.35:
+            abbr = node
+        elif r < 0.5:                                   # below a parent
+            abbr = '%s>%s' % (rng.choice(SPLIT_NAMES), node)
+        elif r < 0.7:                                   # after siblings that take tabstops
+            pre, pg = split_kids(rng, 2, html)
+            abbr = '%s+%s' % (pre if '>' not in pre else '(%s)' % pre, node)
+            groups = pg + groups
+        elif r < 0.85:                                  # before siblings
+            post, pg = split_kids(rng, 2, html)
+            abbr = '(%s)+%s' % (node, post)
+            groups = groups + pg
+        else:                                           # repeated as a group
+            k = rng.choice([2, 3])
+            abbr = '(%s)*%d' % (node, k)
+            groups = groups * k
+        syn = rng.choice(fu.HTML_SYNTAXES if html else fu.INDENT_SYNTAXES)
+        cfg = fu.rand_base(rng, [syn])
+        cfg['options'].pop('output.reverseAttributes', None)
+        cos = fu.rand_cosmetic(rng, SPLIT_NAMES[:6])
+        cos['output.newline'] = rng.choice(NEWLINES)
+        cfg = fu.with_options(cfg, cos)
+        out.append((abbr, cfg, {'explicit': True, 'groups': groups, 'distinct': True, 'split': True}))
+    return out
+
+
+def split_value_grid():
+    """Small complete grid of the same class: 2 or 3 fields with indices from {0,1,2} in every order x children taking
+    1..4 tabstops x text-only node / element x html (formatted), xml (unformatted), CRLF + baseIndent, pug."""
+    import itertools
+    out = []
+    cfgs = [({}, True), ({'syntax': 'xml', 'options': {'output.format': False}}, True),
+            ({'options': {'output.newline': '\r\n', 'output.baseIndent': '  '}}, True), ({'syntax': 'pug'}, False)]
+    kids = [('p', [[0]]), ('p+p', [[0], [0]]), ('b*3', [[0], [0], [0]]), ('q[title]', [[0], [0]]),
+            ('i[data-f=${1}]>em+em', [[1], [0], [0]]), ('u{t}', [])]
+    k = 0
+    for nf in (2, 3):
+        for idx in itertools.permutations(range(3), nf):
+            text = 'x'.join('${%d}' % i for i in idx)
+            for kid, kg in kids:
+                for head in ('', 'div'):
+                    cfg, html = cfgs[k % len(cfgs)]
+                    k += 1
+                    fields = list(idx)
+                    groups = (kg + [fields[1:]]) if html else ([fields] + kg)
+                    out.append(('%s{%s}>%s' % (head, text, kid), cfg,
+                                {'explicit': True, 'groups': groups, 'distinct': True, 'split': True}))
     return out
 
 
@@ -308,7 +481,10 @@ def make_case(rng):
     cos['output.newline'] = rng.choice(NEWLINES)
     cfg = fu.with_options(cfg, cos)
     o = cfg['options']
-    meta = {'explicit': fu.has_explicit_field(abbr)}
+    # no value of the generator's pools (format_util FIELD_TEXTS / FIELD_ATTR_VALUES, the ten snippet names of
+    # SNIPPET_NAMES: at most one field per value in snippets/html.json) mentions one index twice, so the property's
+    # "never collide with tabstops of other values" means: all indices given to output.field differ pairwise
+    meta = {'explicit': fu.has_explicit_field(abbr), 'distinct': True}
     html_fmt = syn in fu.HTML_SYNTAXES
     tags_in_text = any(t in abbr for t in ('<div', '<b>', '<section'))
     if plain_names and html_fmt and not o.get('output.reverseAttributes') and not o.get('comment.enabled'):
@@ -335,7 +511,18 @@ def run(ctx):
         'line/column of that offset in the final result (a line ends at each newline string and each line feed); tabstops '
         '1..k in document order with k = empty attribute values + empty leaves counted in the final output; explicit fields: '
         'relative numbering inside a value, index ranges of successive values disjoint and increasing (expected structure '
-        'from the generator AST; for pug/haml/slim a dedicated stream of elements whose text spans several lines with fields on different lines). The same cases go through the extracted model (event sequences compared). stylesheet: '
+        'from the generator AST; for pug/haml/slim a dedicated stream of elements whose text spans several lines with fields on different lines); '
+        'all indices given to output.field in one run differ pairwise (no value of the generator pools mentions an index twice). '
+        'Values with fields AND children (dedicated stream, also reached by the AST generator and the skeletons): text-only nodes '
+        '{...}>kids and elements p{...}>kids, p[attrs]{...}*N>kids whose text holds 0..4 fields with pairwise different indices at '
+        'any place, children = `+` sequences producing 0..many tabstops (empty leaves, repeated leaves, empty / explicit-field '
+        'attribute values, texts with fields, self-closed leaves, groups, repeated groups, nested values of the same kind), '
+        'alone / below a parent / after and before tabstop-taking siblings / as a repeated group, html family and pug/haml/slim, '
+        'plus a complete small grid (2 or 3 fields with indices from {0,1,2} in every order x children taking 0..4 tabstops x '
+        'text-only node / element x four configurations); '
+        'expected structure: html family = children in place of the first field, the remaining fields of the value one group '
+        'after them (relative numbering kept, above every tabstop of the children); indent family = value first, then children. '
+        'The same cases go through the extracted model (event sequences compared). stylesheet: '
         'snippet sums x css/scss/sass/less/sss/stylus x newline/indent/baseIndent/between/after: positions oracle on the '
         'implementation. non-trivial = at least one field callback and three text callbacks; distinct by (abbreviation, config). '
         'stylesheet FORMATTER stream (css_stream): corpus, fixed cases, every built-in snippet key alone, random sums of '
@@ -381,7 +568,7 @@ def run(ctx):
                         unit.self_close = True
             abbr = g.render(st)
             cfg = sk_cfgs[k % len(sk_cfgs)]
-            meta = {'explicit': fu.has_explicit_field(abbr)}
+            meta = {'explicit': fu.has_explicit_field(abbr), 'distinct': True}
             if cfg.get('syntax', 'html') in fu.HTML_SYNTAXES:
                 tree = g.unroll(g.denote_stmt(st))
                 meta['groups'] = expected_groups(tree, [])
@@ -390,12 +577,20 @@ def run(ctx):
             cases.append((abbr, cfg, meta))
             n_sk += 1
     ctx.cov['exhaustive_skeletons'] = {'max_units': max_units, 'statements': n_sk}
+    if SPLIT_VALUES_ON:
+        grid = split_value_grid()
+        cases.extend(grid)
+        ctx.cov['value_with_fields_and_children_grid'] = len(grid)
     n = 2500 if ctx.tier == 'quick' else 60000
     for _ in range(n):
         cases.append(make_case(rng))
     ind = indent_text_cases(rng, 400 if ctx.tier == 'quick' else 6000)
     cases.extend(ind)
     ctx.cov['indent_multiline_field_cases'] = len(ind)
+    if SPLIT_VALUES_ON:
+        spl = split_value_cases(rng, 900 if ctx.tier == 'quick' else 12000)
+        cases.extend(spl)
+        ctx.cov['value_with_fields_and_children_cases'] = len(spl)
     impl = run_cases(ctx, model, cases, 'C13', None, mode='events')
     for (abbr, cfg, meta), r in zip(cases, impl):
         bad = oracle(abbr, cfg, meta, r)
@@ -411,6 +606,9 @@ def run(ctx):
                 ctx.cover('C13:explicit-fields')
             if meta and meta.get('groups') is not None:
                 ctx.cover('C13:group-structure-checked')
+            if meta and meta.get('split'):
+                ctx.cover('C13:split-value-%s' % ('html-family' if cfg.get('syntax', 'html') in fu.HTML_SYNTAXES else 'indent-family'))
+                ctx.cover('C13:split-value-tabstops-%s' % ('0' if nf == 0 else '1-2' if nf <= 2 else '3-5' if nf <= 5 else '6+'))
             if meta and meta.get('countable'):
                 ctx.cover('C13:tabstop-count-checked')
             if any(e[0] == 'field' and '\n' in e[2] for e in r[2]):
